@@ -52,7 +52,10 @@ def generate(seed, tier):
         if k < 0.3:
             cfg_i += 1
             tps = sorted(r.sample(range(1, N_SVC + 1), r.randrange(0, 4)))
-            ops.append({"op": "publish", "cfg": cfg_i, "tps": tps, "bad": r.random() < 0.15})
+            # bad: one tracepoint the agent skips; unintelligible: the response decodes, but cannot be converted at all
+            # (a metric of an unknown type) - the last good configuration and its hash stay in force
+            ops.append({"op": "publish", "cfg": cfg_i, "tps": tps, "bad": r.random() < 0.15,
+                        "unintelligible": r.random() < 0.12})
         elif k < 0.45 and regs < N_REG:
             regs += 1
             live.append(regs)
@@ -65,7 +68,8 @@ def generate(seed, tier):
         else:
             ops.append({"op": "sleep", "s": r.choice((0.0, 0.5, 4.0, 9.99, 10.0, 10.01, 25.0))})
     knobs = common.race_knobs(r, stall_p=r.choice((0.0, 0.0005, 0.003)), stall_ns=[10_000_000, 2_000_000_000])
-    return {"ops": ops, "line_level": r.random() < 0.7, "prober": r.random() < 0.5, "knobs": knobs}
+    return {"ops": ops, "line_level": r.random() < 0.7, "prober": r.random() < 0.5, "knobs": knobs,
+            "svc_clock": r.choice(("steady", "steady", "steady", "zero", "backwards", "jumpy"))}
 
 
 def shrink_candidates(s):
@@ -82,6 +86,8 @@ def shrink_candidates(s):
         yield dict(s, line_level=False)
     if s.get("prober"):
         yield dict(s, prober=False)
+    if s.get("svc_clock", "steady") != "steady":
+        yield dict(s, svc_clock="steady")
 
 
 def execute(s, ch):
@@ -120,10 +126,23 @@ def execute(s, ch):
                 return {"kind": f["kind"]}
             return None
         svc.on_poll = on_poll
+        clock = s.get("svc_clock", "steady")
+        if clock != "steady":
+            # the service stamps its answers with its own clock (stuck at 0, running backwards, jumping by up to an hour)
+            k.fault("service_clock_%s" % clock)
+            svc.ts_fn = {"zero": lambda idx, now: 0,
+                         "backwards": lambda idx, now: max(1, 10**18 - idx * 10**9),
+                         "jumpy": lambda idx, now: max(1, now + ((idx * 2654435761) % 7200 - 3600) * 10**9)}[clock]
         orig_reply = svc._poll_reply
+
+        unintelligible = [False]
+        bad_hashes = set()
 
         def poll_reply(req, now):
             data = orig_reply(req, now)
+            if req.current_hash != svc.current_hash and unintelligible[0]:
+                bad_hashes.add(svc.current_hash)
+                return data
             if req.current_hash != svc.current_hash:
                 good = [t.ID for t in svc.current_tps if t.args.get("stage") != "no_such_stage"]
                 delivered.append((len(svc.polls), svc.current_hash, good))
@@ -185,7 +204,14 @@ def execute(s, ch):
                 if o.get("bad"):
                     tps.insert(len(tps) // 2, tp_proto(0, bad=True))
                     k.fault("bad_response")
+                if o.get("unintelligible"):
+                    from deepproto.proto.tracepoint.v1 import tracepoint_pb2 as tpb
+                    bad_tp = svc.make_tp("svcX", p.basename, 1, {"fire_count": "-1", "fire_period": "0"}, [],
+                                         [tpb.Metric(name="m_x", type=99)])
+                    tps.insert(len(tps) // 2, bad_tp)
+                    k.fault("unintelligible_response")
                 svc.set_config(tps, "h%d" % o["cfg"])
+                unintelligible[0] = bool(o.get("unintelligible"))
                 k.log("publish", o["cfg"], o["tps"])
             elif o["op"] == "register":
                 def do_reg(o=o):
@@ -274,7 +300,12 @@ def execute(s, ch):
                 viol.append(V("reports-latest-hash-but-runs-other-configuration", "hash %s reported, service part "
                               "installed %s, configuration of that hash %s" % (
                                   last_hash, [a for a in active if a.startswith("svc")], exp_svc)))
-            if last_hash != svc.current_hash:
+            for (_n, _t, h_, _m, _r) in svc.polls:
+                if h_ in bad_hashes:
+                    viol.append(V("reports-hash-of-unintelligible-response", "a poll reported %r, the hash of a response "
+                                  "the agent could not convert (it acts on %s)" % (h_, active)))
+                    break
+            if last_hash != svc.current_hash and not unintelligible[0]:
                 viol.append(V("did-not-catch-up-with-service-hash", "reports %r, service has %r after 3 quiet intervals" % (
                     last_hash, svc.current_hash)))
         if polls_after - polls_before < 2:
